@@ -6,6 +6,7 @@ import HcipyVerif.Lemmas.FftPipelineN
 import HcipyVerif.Lemmas.Mft
 import HcipyVerif.Lemmas.Czt
 import HcipyVerif.Model.ZoomN
+import HcipyVerif.Model.FilterM
 
 /-!
 # C02 on two and on `n` axes: inverse, adjoint, Parseval, cropped energy
@@ -235,5 +236,36 @@ theorem filterM_adjoint_aux {τ : Type} [Fintype τ] (n M : ℕ) (P F : ℕ → 
   conv_rhs => rw [Finset.sum_comm]
   refine Finset.sum_congr rfl fun r _ => Finset.sum_congr rfl fun q _ =>
     Finset.sum_congr rfl fun i _ => by ring
+
+/-! ## 5. The executable matrix filter (`Model/FilterM.lean`, run by the driver) is `filterM` -/
+
+theorem fmAnalysisX_eq (n M : ℕ) (P F : ℕ → ℕ → ℂ) (x : ℕ → ℂ) (r : ℕ) :
+    fmAnalysisX n M P F x r = fmAnalysis n M P F x r := by
+  simp only [fmAnalysisX, fmAnalysis, sumRange_eq]
+
+theorem fmSynthesisX_eq (n M : ℕ) (P F : ℕ → ℕ → ℂ) (c : ℂ) (g : ℕ → ℂ) (i : ℕ) :
+    fmSynthesisX n M P F (starRingEnd ℂ) c⁻¹ g i = fmSynthesis n M P F c g i := by
+  simp only [fmSynthesisX, fmSynthesis, sumRange_eq]
+
+theorem filterMX_eq (n M : ℕ) (P F : ℕ → ℕ → ℂ) (c : ℂ) (D : ℕ → Bool → Bool → ℂ)
+    (x : Bool → ℕ → ℂ) (a : Bool) (i : ℕ) :
+    filterMX n M P F (starRingEnd ℂ) c⁻¹ D x a i = filterM n M P F c D x a i := by
+  unfold filterMX filterM
+  rw [fmSynthesisX_eq]
+  congr 1
+  funext r
+  rw [Fintype.sum_bool, fmAnalysisX_eq, fmAnalysisX_eq]
+  ring
+
+theorem fmCtrX_eq (D : ℕ → Bool → Bool → ℂ) : fmCtrX (starRingEnd ℂ) D = fmCtr D := rfl
+
+/-- adjointness of the executable matrix filter -/
+theorem filterMX_adjoint (n M : ℕ) (P F : ℕ → ℕ → ℂ) (c : ℂ) (hc : conj c = c)
+    (D : ℕ → Bool → Bool → ℂ) (x y : Bool → ℕ → ℂ) :
+    ∑ a, ∑ i ∈ range n, conj (y a i) * filterMX n M P F (starRingEnd ℂ) c⁻¹ D x a i
+      = ∑ a, ∑ i ∈ range n,
+          conj (filterMX n M P F (starRingEnd ℂ) c⁻¹ (fmCtrX (starRingEnd ℂ) D) y a i) * x a i := by
+  simp only [filterMX_eq, fmCtrX_eq]
+  exact filterM_adjoint_aux n M P F c hc D x y
 
 end HcipyVerif.Fft
